@@ -1,0 +1,5 @@
+//go:build !verif
+
+package kafka
+
+func verifTrace(ev string, args ...interface{}) {}
